@@ -13,9 +13,10 @@
 
    C01: the K repeated answers on the same context and the R per-process store digests must all be equal. *)
 EXTENDS Pairing, IOUtils
-VARIABLES l, rng, nans, meta
+VARIABLES l, rng, nans, meta, hist
 Trace == ndJsonDeserialize(IOEnv.VERIF_TRACE)
-tvars == <<vars, l, rng, nans, meta>>
+tvars == <<vars, l, rng, nans, meta, hist>>
+\* hist[c] = [n |-> epochs queried so far with the table h.tab and policy h.eff, seen |-> providers paired in at least one of them]
 
 PolOf(j) == [on |-> j.on, gl |-> FALSE, geo |-> ToSet(j.geo), max |-> j.max, mode |-> j.mode, sel |-> ToSet(j.sel), reqs |-> j.reqs]
 EffOf(j) == [err |-> j.err, gl |-> j.gl, geo |-> ToSet(j.geo), max |-> j.max, mode |-> j.mode, sel |-> ToSet(j.sel), reqs |-> j.reqs]
@@ -25,11 +26,13 @@ NoAns == [l |-> 1, v |-> 1, e |-> 1, h |-> 1]
 
 TInit == /\ Blank /\ cfg = [id |-> 0] /\ tab = <<>> /\ l = 1 /\ rng = <<>> /\ nans = NoAns
          /\ meta = [ev |-> "reset", mid |-> FALSE, k |-> 0]
+         /\ hist = [c \in {Trace[1].cfg} |-> [n |-> 0, seen |-> {}, tab |-> <<>>, eff |-> <<>>]]
          /\ Trace[1].ev = "reset"
 
 TReset(r) == /\ phase' = "start" /\ eff' = [err |-> TRUE] /\ skip' = {} /\ out' = <<>> /\ grp' = 1 /\ pos' = 1 /\ ver' = <<>> /\ sub' = <<>>
              /\ cfg' = [id |-> r.cfg] /\ tab' = <<>> /\ rng' = <<>> /\ nans' = NoAns
              /\ meta' = [ev |-> "reset", mid |-> FALSE, k |-> 0]
+             /\ hist' = [c \in DOMAIN hist \cup {r.cfg} |-> IF c = r.cfg THEN [n |-> 0, seen |-> {}, tab |-> <<>>, eff |-> <<>>] ELSE hist[c]]
 TQuery(r) == /\ cfg' = [id |-> r.cfg, plan |-> PolOf(r.pol[1]), sub |-> PolOf(r.pol[2]), admin |-> PolOf(r.pol[3])]
              /\ tab' = TabOfLog(r.tab)
              /\ eff' = EffOf(r.eff)
@@ -40,10 +43,17 @@ TQuery(r) == /\ cfg' = [id |-> r.cfg, plan |-> PolOf(r.pol[1]), sub |-> PolOf(r.
              /\ rng' = r.rng
              /\ nans' = [l |-> Len(r.lists), v |-> Len(r.vers), e |-> Len(r.effs), h |-> 1]
              /\ meta' = [ev |-> "q", mid |-> r.mid, k |-> r.k]
+             /\ LET h == hist[r.cfg]
+                    same == h.tab = r.tab /\ h.eff = r.eff
+                    new == IF r.mid \/ r.err THEN h
+                           ELSE [n |-> (IF same THEN h.n ELSE 0) + 1, seen |-> (IF same THEN h.seen ELSE {}) \cup ToSet(r.list),
+                                 tab |-> r.tab, eff |-> r.eff] IN
+                hist' = [c \in DOMAIN hist |-> IF c = r.cfg THEN new ELSE hist[c]]
 TBlock(r) == /\ UNCHANGED <<cfg, tab, eff, out, ver, skip, grp, pos, rng, sub>>
              /\ phase' = "block"
              /\ nans' = [l |-> 1, v |-> 1, e |-> 1, h |-> Cardinality(ToSet(r.digs))]
              /\ meta' = [ev |-> "blk", mid |-> FALSE, k |-> 0]
+             /\ UNCHANGED hist
 TNext == /\ l < Len(Trace) /\ l' = l + 1
          /\ LET r == Trace[l + 1] IN
               \/ r.ev = "reset" /\ TReset(r)
@@ -61,6 +71,20 @@ ErrIff == phase = "err" => \A i \in 1..Len(ver) : ~ver[i]
 Applicable == phase = "verified" /\ CostsOK(eff, tab)
 PickConfPlain == (Applicable /\ MixFilters(eff) = <<>>) => out = PairingFor(eff, tab, rng)
 PickConfAll == Applicable => out = PairingFor(eff, tab, rng)
+
+(* C40 (Obs), the real-code witness of "no eligible provider with positive stake has zero chance":
+   in a configuration without mix filters whose scores are small (total numerator <= 10^6), a provider with score w among
+   eligible providers of total score W is picked for the first slot of an epoch with probability w/W; once the same stake table
+   and policy have been queried for n epochs with n*w >= 14*W, the chance that it was never paired is below e^-14 < 10^-6 -
+   so it must have been seen. *)
+NoZeroChance ==
+  (phase = "verified" /\ ~meta.mid /\ MixFilters(eff) = <<>> /\ CostsOK(eff, tab)) =>
+    LET h == hist[cfg.id]
+        req == GroupGeo(eff, 1)
+        E == {i \in 1..Len(tab) : MandatoryPass(eff, tab[i])}
+        W == SumSet([i \in 1..Len(tab) |-> ScoreNum(req, tab[i])], E) IN
+    (W <= 1000000 /\ Len(out) < Cardinality(E)) =>
+       \A i \in E : (tab[i].stake > 0 /\ h.n * ScoreNum(req, tab[i]) >= 14 * W) => tab[i].p \in h.seen
 
 (* ---- C01 (Obs): all answers on the same state are equal; all processes reach the same state ---- *)
 DetLists == nans.l = 1
